@@ -43,6 +43,21 @@ func NewHMACAuth(secrets [][]byte) *HMACAuth {
 	return a
 }
 
+// InheritNonces makes a take over the nonces already seen by prev, the
+// authenticator it replaces for the same route on a configuration reload, so
+// that a reload does not reopen the replay window of requests accepted
+// before it. If the tolerance grew, remembered nonces are kept correspondingly
+// longer.
+func (a *HMACAuth) InheritNonces(prev *HMACAuth) {
+	if a == nil || prev == nil || prev.nonce == nil {
+		return
+	}
+	a.nonce = prev.nonce
+	if grow := a.Tolerance - prev.Tolerance; grow > 0 {
+		a.nonce.extend(grow)
+	}
+}
+
 // Verify checks:
 // - timestamp header is present and within tolerance
 // - nonce header is present and not reused within tolerance window
@@ -163,6 +178,14 @@ func (c *nonceCache) setNow(now func() time.Time) {
 	c.mu.Lock()
 	c.now = now
 	c.mu.Unlock()
+}
+
+func (c *nonceCache) extend(by time.Duration) {
+	c.mu.Lock()
+	defer c.mu.Unlock()
+	for k, exp := range c.m {
+		c.m[k] = exp.Add(by)
+	}
 }
 
 func (c *nonceCache) seenOnce(nonce string, expiresAt time.Time) bool {
